@@ -66,6 +66,33 @@ func (s signer) SignWithAlgorithm(_ io.Reader, data []byte, algorithm string) (*
 	return s.agent.SignWithFlags(s.cert.Key, data, flags)
 }
 
+// upstreamSigner signs with a key of the underlying agent through the shim agent, so that the
+// request is serialized with every other use of the single connection to the underlying agent.
+type upstreamSigner struct {
+	pub   ssh.PublicKey
+	agent agent.ExtendedAgent
+}
+
+// PublicKey returns the public key (or certificate) held by the underlying agent.
+func (s upstreamSigner) PublicKey() ssh.PublicKey { return s.pub }
+
+// Sign signs the data with the key in the underlying agent.
+func (s upstreamSigner) Sign(_ io.Reader, data []byte) (*ssh.Signature, error) {
+	return s.agent.Sign(s.pub, data)
+}
+
+// SignWithAlgorithm signs the data with the key in the underlying agent with the specified algorithm.
+func (s upstreamSigner) SignWithAlgorithm(_ io.Reader, data []byte, algorithm string) (*ssh.Signature, error) {
+	var flags agent.SignatureFlags
+	switch algorithm {
+	case ssh.KeyAlgoRSASHA256:
+		flags = agent.SignatureFlagRsaSha256
+	case ssh.KeyAlgoRSASHA512:
+		flags = agent.SignatureFlagRsaSha512
+	}
+	return s.agent.SignWithFlags(s.pub, data, flags)
+}
+
 type hashcode [sha256.Size]byte
 
 func hash(data []byte) hashcode {
@@ -537,7 +564,9 @@ func (s *Server) Signers() ([]ssh.Signer, error) {
 	if err != nil {
 		return nil, err
 	}
-	for _, signer := range uss {
+	for _, us := range uss {
+		// The signers of the agent client write to the connection without holding s.mu.
+		signer := upstreamSigner{us.PublicKey(), s}
 		if !s.noUpstreamSSHCACert {
 			signers = append(signers, signer)
 			continue
